@@ -31,15 +31,69 @@ func text(n ast.Node) string {
 
 func q(s string) string { return strconv.Quote(s) }
 
+// goTy renders a Go type expression of package telegram as a Lean `GoTy` term.
+func goTy(e ast.Expr) string {
+	switch x := e.(type) {
+	case *ast.Ident:
+		switch x.Name {
+		case "int32", "int64", "float64", "string", "bool":
+			return "(.prim " + q(x.Name) + ")"
+		}
+		return "(.named " + q("telegram."+x.Name) + ")"
+	case *ast.ArrayType:
+		if x.Len == nil {
+			if id, ok := x.Elt.(*ast.Ident); ok && id.Name == "byte" {
+				return ".bytes"
+			}
+			return "(.slice " + goTy(x.Elt) + ")"
+		}
+	case *ast.StarExpr:
+		switch y := x.X.(type) {
+		case *ast.Ident:
+			return "(.ptr " + q("telegram."+y.Name) + ")"
+		case *ast.SelectorExpr:
+			return "(.ptr " + q(text(y)) + ")"
+		}
+	case *ast.SelectorExpr:
+		if text(x) == "tl.Object" {
+			return ".obj"
+		}
+	}
+	return "(.other " + q(text(e)) + ")"
+}
+
+func bstr(s string) string {
+	if s == "" {
+		return "⟨0, 0⟩"
+	}
+	return fmt.Sprintf("⟨%d, 0x%x⟩", len(s), []byte(s))
+}
+
+func flagTerm(tag string) string {
+	if !strings.HasPrefix(tag, "flag:") {
+		return "none"
+	}
+	parts := strings.Split(tag, ",")
+	n, _ := strconv.Atoi(strings.TrimPrefix(parts[0], "flag:"))
+	in := false
+	for _, o := range parts[1:] {
+		if o == "encoded_in_bitflags" {
+			in = true
+		}
+	}
+	return fmt.Sprintf("(some ⟨%d, %v⟩)", n, in)
+}
+
 type method struct {
 	name, recv                       string
-	args                             [][2]string // name, type text
+	args                             [][2]string // name, Lean GoTy term
 	reqType                          string
 	passThrough                      bool // the single *Params argument is handed to the request call
 	assign                           [][2]string
 	call, hint, asserted, retType    string
 	ok                               bool
 	why                              string
+	argText                          [][2]string
 }
 
 func parseMethod(fd *ast.FuncDecl) method {
@@ -49,11 +103,12 @@ func parseMethod(fd *ast.FuncDecl) method {
 	}
 	for _, p := range fd.Type.Params.List {
 		for _, n := range p.Names {
-			m.args = append(m.args, [2]string{n.Name, text(p.Type)})
+			m.args = append(m.args, [2]string{n.Name, goTy(p.Type)})
+			m.argText = append(m.argText, [2]string{n.Name, text(p.Type)})
 		}
 	}
 	if fd.Type.Results != nil && len(fd.Type.Results.List) >= 1 {
-		m.retType = text(fd.Type.Results.List[0].Type)
+		m.retType = goTy(fd.Type.Results.List[0].Type)
 	}
 	ast.Inspect(fd.Body, func(n ast.Node) bool {
 		switch x := n.(type) {
@@ -79,7 +134,7 @@ func parseMethod(fd *ast.FuncDecl) method {
 						}
 					case *ast.Ident:
 						m.passThrough = true
-						for _, ar := range m.args {
+						for _, ar := range m.argText {
 							if ar[0] == a.Name {
 								m.reqType = strings.TrimPrefix(ar[1], "*")
 							}
@@ -90,14 +145,14 @@ func parseMethod(fd *ast.FuncDecl) method {
 					// reflect.TypeOf(T{})
 					if c2, ok := x.Args[1].(*ast.CallExpr); ok && len(c2.Args) == 1 {
 						if cl, ok := c2.Args[0].(*ast.CompositeLit); ok {
-							m.hint = text(cl.Type)
+							m.hint = "(some " + goTy(cl.Type) + ")"
 						}
 					}
 				}
 			}
 		case *ast.TypeAssertExpr:
 			if m.asserted == "" && x.Type != nil {
-				m.asserted = text(x.Type)
+				m.asserted = goTy(x.Type)
 			}
 		}
 		return true
@@ -110,13 +165,14 @@ type wrapper struct {
 	name      string
 	id        string
 	flagIndex string
-	fields    [][3]string // name, type text, tag
+	fields    [][3]string // name, Lean GoTy term, tag
 }
 
 func main() {
 	repo, out := os.Args[1], os.Args[2]
 	var methods []method
 	wrappers := map[string]*wrapper{}
+	crcOf := map[string]string{} // Go type name -> literal returned by its CRC() method
 	for _, fn := range []string{"methods_gen.go", "methods_special.go"} {
 		f, err := parser.ParseFile(fset, filepath.Join(repo, "telegram", fn), nil, 0)
 		if err != nil {
@@ -128,6 +184,11 @@ func main() {
 			case *ast.FuncDecl:
 				if x.Recv != nil && len(x.Recv.List) == 1 {
 					rt := text(x.Recv.List[0].Type)
+					if x.Name.Name == "CRC" && x.Body != nil && len(x.Body.List) == 1 {
+						if r, ok := x.Body.List[0].(*ast.ReturnStmt); ok && len(r.Results) == 1 {
+							crcOf[strings.TrimPrefix(rt, "*")] = text(r.Results[0])
+						}
+					}
 					if strings.HasSuffix(rt, "Client") && x.Body != nil {
 						m := parseMethod(x)
 						if m.ok {
@@ -178,7 +239,7 @@ func main() {
 							tag = reflect.StructTag(s).Get("tl")
 						}
 						for _, n := range fl.Names {
-							w.fields = append(w.fields, [3]string{n.Name, text(fl.Type), tag})
+							w.fields = append(w.fields, [3]string{n.Name, goTy(fl.Type), tag})
 						}
 					}
 				}
@@ -200,7 +261,7 @@ func main() {
 			m := methods[j]
 			var args, asg []string
 			for _, a := range m.args {
-				args = append(args, fmt.Sprintf("(%s, %s)", q(a[0]), q(a[1])))
+				args = append(args, fmt.Sprintf("(%s, %s)", q(a[0]), a[1]))
 			}
 			for _, a := range m.assign {
 				asg = append(asg, fmt.Sprintf("(%s, %s)", q(a[0]), q(a[1])))
@@ -209,8 +270,16 @@ func main() {
 			if j == end-1 {
 				sep = ""
 			}
-			fmt.Fprintf(&b, "  ⟨%s, %s, %v, [%s], [%s], %s, %s, %s, %s⟩%s\n", q(m.name), q(m.reqType), m.passThrough,
-				strings.Join(args, ", "), strings.Join(asg, ", "), q(m.call), q(m.hint), q(m.asserted), q(m.retType), sep)
+			hint := m.hint
+			if hint == "" {
+				hint = "none"
+			}
+			id := crcOf[m.reqType]
+			if id == "" {
+				id = "0"
+			}
+			fmt.Fprintf(&b, "  ⟨%s, %s, %s, %v, [%s], [%s], %s, %s, %s, %s⟩%s\n", q(m.name), q("telegram."+m.reqType), id, m.passThrough,
+				strings.Join(args, ", "), strings.Join(asg, ", "), q(m.call), hint, m.asserted, m.retType, sep)
 		}
 		b.WriteString("]\n\n")
 		n++
@@ -235,13 +304,17 @@ func main() {
 		w := wrappers[k]
 		var fs []string
 		for _, f := range w.fields {
-			fs = append(fs, fmt.Sprintf("(%s, %s, %s)", q(f[0]), q(f[1]), q(f[2])))
+			fs = append(fs, fmt.Sprintf("(%s, %s, %s)", q(f[0]), f[1], flagTerm(f[2])))
 		}
 		sep := ","
 		if i == len(wn)-1 {
 			sep = ""
 		}
-		fmt.Fprintf(&b, "  ⟨%s, %s, %s, [%s]⟩%s\n", q(w.name), w.id, w.flagIndex, strings.Join(fs, ", "), sep)
+		sn := strings.TrimSuffix(w.name, "Params")
+		if sn != "" {
+			sn = strings.ToLower(sn[:1]) + sn[1:]
+		}
+		fmt.Fprintf(&b, "  ⟨%s, %s, %s, %s, [%s]⟩%s\n", q("telegram."+w.name), bstr(sn), w.id, w.flagIndex, strings.Join(fs, ", "), sep)
 	}
 	b.WriteString("]\n\nend Mtv.Gen\n")
 	src := b.String()
